@@ -443,7 +443,7 @@ pub fn run(ctx: &mut Ctx) {
             let k = signers[0];
             ctx.eval();
             ctx.count("sign_verify_wrapped");
-            let s = base.sign_opt(&k.sk, k.options());
+            let s = if k.options().is_none() && case % 8 == 0 { base.sign(&k.sk) } else { base.sign_opt(&k.sk, k.options()) };
             if k.scheme.starts_with("SshEcdsa") && signed_objects(&s).iter().any(is_unreadable_ssh_signature) {
                 ctx.violation(&format!("dependency-rejects-own-signature/{}", k.scheme), "a freshly made SSH ECDSA signature cannot be read back / verified by bc-components+ssh-key (about 1% of signatures)", jhex(&s));
                 continue;
